@@ -758,12 +758,23 @@ func (i *importer) importSignal(dbcSig *dbc.Signal, dbcMsgID uint32) (Signal, er
 	sigKey := i.getSignalKey(dbcMsgID, sigName)
 
 	if sigEnum, ok := i.signalEnums[sigKey]; ok {
+		dbcSigSize := int(dbcSig.Size)
+
+		// the size of an enum is shared by all the signals that use it,
+		// a signal of another size gets its own copy of the values
+		if sigEnum.ReferenceCount() > 0 && sigEnum.GetSize() != dbcSigSize {
+			clonedEnum, err := sigEnum.Clone()
+			if err != nil {
+				return nil, i.errorf(dbcSig, err)
+			}
+			sigEnum = clonedEnum
+		}
+
 		enumSig, err := NewEnumSignal(sigName, sigEnum)
 		if err != nil {
 			return nil, i.errorf(dbcSig, err)
 		}
 
-		dbcSigSize := int(dbcSig.Size)
 		if enumSig.GetSize() < dbcSigSize {
 			sigEnum.SetMinSize(dbcSigSize)
 		}
